@@ -136,6 +136,7 @@ class MinimizerIMinuit(MinimizerBase):
                 _minos_result = _m.merrors
                 _par_names_free = [_pn for _pn in self.parameter_names if not self.is_fixed(_pn)]
         except RuntimeError:
+            self._load_state()  # MINOS failed: do not leave the fit where the search stopped
             return None
         _asymm_par_errs = np.zeros(shape=(self.num_pars, 2))
         for _par_name in self.parameter_names:
